@@ -695,6 +695,17 @@ func (w *world) indexQueries(d drv.Real, tn string, mt *model.Table) *failure {
 				continue
 			}
 			seen[model.Canon(hv)] = true
+			inexact := false
+			for _, other := range mt.View(ix.Name) {
+				if ov := other[ix.Hash]; ov.T == "N" && !model.FloatExact(ov.S) {
+					inexact = true // (an exact value may still be float64-equal to an inexact neighbour)
+				}
+			}
+			if hv.T == "N" && open("F-FLOAT") && inexact {
+				// the key condition is an expression: numbers beyond float64 precision are F-FLOAT's
+				stats.For(w.prop).Exclude("F-FLOAT")
+				continue
+			}
 			for _, back := range []bool{false, true} {
 				op := model.Op{Kind: "Query", Table: tn, Index: ix.Name, KeyCond: "#h = :h", Names: map[string]string{"#h": ix.Hash},
 					Values: map[string]model.AV{":h": hv}, Backward: back}
